@@ -1,16 +1,773 @@
-//! C10 (component level) — not built yet.
+//! C10 (component level): `CubicCongestionController` and `BbrCongestionController` driven
+//! through the `CongestionController` trait by generated op sequences that follow the calling
+//! discipline of `s2n-quic-transport` (`recovery::Manager`, `path::Path`, `connection_impl`),
+//! compared after **every** trait call with a ledger of outstanding packets and the RFC 9002
+//! window rules.
+//!
+//! Calling discipline reproduced here (each item is what the only real caller does; violating
+//! one of them would produce false alarms, e.g. `debug_assert` panics):
+//!
+//! * time is monotone; every packet of a transmission burst carries the burst's timestamp;
+//!   a packet is only written once `earliest_departure_time()` has elapsed
+//!   (`Path::can_transmit`) — the pacing timer fires at that time, which the interpreter
+//!   models by moving the clock forward (bounded, otherwise the burst ends);
+//! * a congestion-controlled packet (`bytes > 0`, at most `max_datagram_size`) is written only
+//!   when `!is_congestion_limited() || requires_fast_retransmission()`
+//!   (`Path::transmission_constraint`); packets that are not congestion controlled (pure
+//!   ACKs) are passed with `sent_bytes = 0` at any time; PMTU probes (larger than the current
+//!   `max_datagram_size`) only when not limited; PTO probes (second family only) ignore the
+//!   window, at most two per expiry;
+//! * `app_limited = Some(true)` is only ever reported when the window still has room for a
+//!   full datagram after the packet (`application::is_app_limited`); `None` = Initial/Handshake;
+//! * ACK frame: the newly acknowledged packets leave the ledger, then — in this order —
+//!   `RttEstimator::update_rtt` + `on_rtt_update` (only if the frame newly acknowledges an
+//!   ack-eliciting packet), loss detection (`on_packet_lost` per packet in ascending packet
+//!   number order, same `persistent_congestion` flag for the batch, first packet of a batch
+//!   is a new loss burst, followed by `RttEstimator::on_persistent_congestion`), ECN
+//!   (`on_explicit_congestion`, incremental CE count ≥ 1 and never more CE marks than packets
+//!   sent), and finally ONE `on_ack` with the sum of the acknowledged bytes (only if > 0) and
+//!   time-sent / `PacketInfo` of the largest newly acknowledged packet (which may be a
+//!   zero-byte packet) exactly as returned by its `on_packet_sent`;
+//! * only packets older than the largest acknowledged packet are ever declared lost
+//!   (`detect_lost_packets` stops at `largest_acked_packet`), with the `PacketInfo` returned
+//!   at send time; zero-byte packets are never reported lost;
+//! * `on_packet_discarded` gets the byte sum of the packets dropped with a packet number space
+//!   (possibly 0) or the size of one lost PMTU probe;
+//! * `on_mtu_update` with any value in 1200..=9000.
 
-use vcore::{Property, SubCheck};
+use proptest::prelude::*;
+use s2n_quic_core::{
+    event,
+    packet::number::PacketNumberSpace,
+    path,
+    random,
+    recovery::{
+        bbr::BbrCongestionController, congestion_controller::PathPublisher, CongestionController,
+        CubicCongestionController, RttEstimator,
+    },
+    time::{Clock as _, NoopClock, Timestamp},
+};
+use serde::{Deserialize, Serialize};
+use std::time::Duration;
+use vcore::{ensure_that, gen::pick_index, CaseResult, Fail, Obs, PropCheck, Property, SubCheck, Tier};
+
+// ---------------------------------------------------------------------------------------
+// case description (plain data, replayable)
+
+#[derive(Clone, Copy, Debug, Hash, PartialEq, Eq, Serialize, Deserialize)]
+pub enum Size {
+    /// not congestion controlled (pure ACK): `sent_bytes = 0`
+    Zero,
+    /// exactly `max_datagram_size`
+    Full,
+    /// `max_datagram_size - k`
+    Minus(u16),
+    /// `min(v, max_datagram_size)`, at least 1
+    Abs(u16),
+    /// a PMTU probe: larger than the current `max_datagram_size` (at most 9000), one packet
+    MtuProbe(u16),
+}
+
+/// `len` consecutive entries of a state-dependent list starting at `pick_index(at, list.len())`
+#[derive(Clone, Copy, Debug, Hash, PartialEq, Eq, Serialize, Deserialize)]
+pub struct Run {
+    pub at: u16,
+    pub len: u8,
+}
+
+#[derive(Clone, Copy, Debug, Hash, PartialEq, Eq, Serialize, Deserialize)]
+pub enum RttSrc {
+    /// the frame does not newly acknowledge its largest acknowledged packet: no RTT sample
+    NoSample,
+    /// `now - time_sent(largest newly acked)`, as `recovery::Manager` computes it
+    Clock,
+    /// generated sample in microseconds (1 µs … 10 s), as the in-tree fuzz target does
+    Us(u32),
+}
+
+#[derive(Clone, Debug, Hash, PartialEq, Eq, Serialize, Deserialize)]
+pub struct Loss {
+    pub runs: Vec<Run>,
+    pub persistent: bool,
+    /// bit i set: the i-th lost packet starts a new loss burst even if adjacent
+    pub burst_mask: u16,
+}
+
+#[derive(Clone, Debug, Hash, PartialEq, Eq, Serialize, Deserialize)]
+pub enum Op {
+    Advance { us: u32 },
+    Send { count: u8, size: Size, app_limited: Option<bool>, pto_probe: bool },
+    Ack { runs: Vec<Run>, rtt: RttSrc, ack_delay_us: u32, handshake_confirmed: bool, loss: Option<Loss>, ce: u8 },
+    /// loss timer expiry
+    Lose(Loss),
+    Ecn { ce: u8 },
+    Mtu { mds: u16 },
+    Discard { runs: Vec<Run> },
+}
+
+#[derive(Clone, Debug, Hash, PartialEq, Eq, Serialize, Deserialize)]
+pub struct Case {
+    pub mds: u16,
+    pub seed: u8,
+    pub ops: Vec<Op>,
+}
+
+// ---------------------------------------------------------------------------------------
+// interpreter + oracle
+
+#[derive(Clone, Copy, Debug, PartialEq, Eq)]
+enum Kind {
+    Cubic,
+    Bbr,
+}
+
+impl Kind {
+    fn name(self) -> &'static str {
+        match self {
+            Kind::Cubic => "cubic",
+            Kind::Bbr => "bbr",
+        }
+    }
+    /// minimum window in datagrams: RFC 9002 §7.2 kMinimumWindow = 2 (CUBIC), BBRv2 draft §2.8
+    /// BBRMinPipeCwnd = 4
+    fn min_packets(self) -> u32 {
+        match self {
+            Kind::Cubic => 2,
+            Kind::Bbr => 4,
+        }
+    }
+    /// RFC 9002 §7.2 initial window for a datagram size (never below the controller's minimum)
+    fn initial_window(self, mds: u16) -> u32 {
+        let mds = mds as u32;
+        (10 * mds).min(14720u32.max(2 * mds)).max(self.min_packets() * mds)
+    }
+}
+
+struct Pkt<I> {
+    seq: u64,
+    bytes: u32,
+    time_sent: Timestamp,
+    info: I,
+    app_limited: Option<bool>,
+}
+
+/// upper bound for one pacing-timer sleep inside a transmission burst
+const MAX_PACING_WAIT: Duration = Duration::from_secs(10);
+
+struct Sim<CC: CongestionController> {
+    kind: Kind,
+    cc: CC,
+    mds: u16,
+    now: Timestamp,
+    rtt: RttEstimator,
+    rng: random::testing::Generator,
+    /// the ledger: packets sent and neither acknowledged, lost nor discarded (send order)
+    out: Vec<Pkt<CC::PacketInfo>>,
+    next_seq: u64,
+    max_acked_seq: Option<u64>,
+    /// bytes of packets already taken off the ledger whose `on_ack` / `on_packet_lost` call is
+    /// still to come within the current op
+    pending: u32,
+    packets_sent: u64,
+    ce_total: u64,
+    prev_fast_retx: bool,
+    // --- CUBIC window model
+    /// last congestion-controlled packet was sent while the model is certain the window was
+    /// under-utilised and the application had nothing more to send
+    under_utilized: bool,
+    /// `next_seq` at the time of the last loss/ECN window reduction (None: none yet, or the
+    /// recovery epoch was reset by persistent congestion, RFC 9002 B.8)
+    last_reduction_seq: Option<u64>,
+    /// an `on_ack` whose newest packet was sent after the last reduction has happened
+    round_trip_elapsed: bool,
+    // --- measurements
+    reductions: u32,
+    congestion_events: u32,
+    grew_after_event: bool,
+    app_limited_acks: u32,
+    units: u64,
+}
+
+type P<'a> = PathPublisher<'a, event::testing::Publisher>;
+
+impl<CC: CongestionController> Sim<CC> {
+    fn key(&self, what: &str) -> String {
+        format!("{}:{}", self.kind.name(), what)
+    }
+
+    fn ledger_sum(&self) -> u64 {
+        self.out.iter().map(|p| p.bytes as u64).sum::<u64>() + self.pending as u64
+    }
+
+    /// invariants that hold after every single trait call
+    fn check(&mut self, step: usize, call: &str, may_request_fast_retx: bool) -> CaseResult {
+        self.units += 1;
+        let cwnd = self.cc.congestion_window();
+        let bif = self.cc.bytes_in_flight();
+        let mds = self.mds as u32;
+        let floor = self.kind.min_packets() * mds;
+        ensure_that!(
+            cwnd >= floor,
+            self.key("window-below-minimum"),
+            "step {step} after {call}: congestion_window {cwnd} < {} * max_datagram_size {mds}",
+            self.kind.min_packets()
+        );
+        // the window is kept as f32 (CUBIC) / grown with saturating adds (BBR): a saturated
+        // value is an overflow; no sequence within the bounds can legitimately get near it
+        // (at most 400*50*9000 bytes are ever sent, an MTU change scales by at most 7.5)
+        ensure_that!(cwnd < u32::MAX, self.key("window-overflow"), "step {step} after {call}: congestion_window saturated at u32::MAX");
+        let want = self.ledger_sum();
+        ensure_that!(
+            bif as u64 == want,
+            self.key("bytes-in-flight-ledger"),
+            "step {step} after {call}: bytes_in_flight() = {bif}, packets outstanding sum to {want}"
+        );
+        // trait doc: "true if the congestion window does not have sufficient space for a packet
+        // of max_datagram_size considering the current bytes in flight"
+        let limited = self.cc.is_congestion_limited();
+        ensure_that!(
+            limited == (cwnd.saturating_sub(bif) < mds),
+            self.key("is-congestion-limited-definition"),
+            "step {step} after {call}: is_congestion_limited() = {limited} with cwnd {cwnd}, in flight {bif}, mds {mds}"
+        );
+        // RFC 9002 §7.3.2: the single-packet allowance exists only on entering a recovery
+        // period, i.e. it can only be raised by a loss / ECN signal
+        let fr = self.cc.requires_fast_retransmission();
+        ensure_that!(
+            may_request_fast_retx || !fr || self.prev_fast_retx,
+            self.key("fast-retransmission-without-congestion-event"),
+            "step {step} after {call}: requires_fast_retransmission() became true without a loss or ECN signal"
+        );
+        self.prev_fast_retx = fr;
+        Ok(())
+    }
+
+    fn resolve(&self, runs: &[Run], eligible: &[usize]) -> Vec<usize> {
+        let mut sel = vec![false; eligible.len()];
+        for r in runs {
+            if eligible.is_empty() {
+                break;
+            }
+            let start = pick_index(r.at, eligible.len());
+            for s in sel.iter_mut().skip(start).take(r.len.max(1) as usize) {
+                *s = true;
+            }
+        }
+        eligible.iter().zip(sel).filter(|(_, s)| *s).map(|(i, _)| *i).collect()
+    }
+
+    /// removes the given (ascending) ledger indices and returns the packets in send order
+    fn take(&mut self, idxs: &[usize]) -> Vec<Pkt<CC::PacketInfo>> {
+        let mut taken = Vec::with_capacity(idxs.len());
+        for &i in idxs.iter().rev() {
+            taken.push(self.out.remove(i));
+        }
+        taken.reverse();
+        taken
+    }
+
+    fn size(&self, size: Size) -> u32 {
+        let mds = self.mds as u32;
+        match size {
+            Size::Zero => 0,
+            Size::Full => mds,
+            Size::Minus(k) => mds - (k as u32).min(mds - 1),
+            Size::Abs(v) => (v as u32).clamp(1, mds),
+            Size::MtuProbe(v) => (v as u32).clamp((mds + 1).min(9000), 9000),
+        }
+    }
+
+    fn send(&mut self, step: usize, count: u8, size: Size, app_limited: Option<bool>, pto_probe: bool, p: &mut P, obs: &mut Obs) -> CaseResult {
+        let mtu_probe = matches!(size, Size::MtuProbe(_));
+        let count = if mtu_probe {
+            1
+        } else if pto_probe {
+            count.min(2)
+        } else {
+            count
+        };
+        for _ in 0..count {
+            let mut bytes = self.size(size);
+            if pto_probe && bytes == 0 {
+                // probes are ack-eliciting
+                bytes = self.mds as u32;
+            }
+            // Path::can_transmit: wait for the pacer
+            if let Some(edt) = self.cc.earliest_departure_time() {
+                if !edt.has_elapsed(self.now) {
+                    if edt - self.now > MAX_PACING_WAIT {
+                        obs.class("pacing-wait-too-long");
+                        break;
+                    }
+                    self.now = edt;
+                    obs.class("pacing-wait");
+                }
+            }
+            let limited = self.cc.is_congestion_limited();
+            let fast = self.cc.requires_fast_retransmission();
+            if bytes > 0 {
+                if mtu_probe {
+                    if limited {
+                        break;
+                    }
+                } else if pto_probe {
+                    obs.class_if(limited && !fast, "pto-probe-while-limited");
+                } else if limited && !fast {
+                    obs.class("congestion-limited");
+                    break;
+                }
+                obs.class_if(limited && fast && !pto_probe, "fast-retransmission-sent");
+            }
+            let cwnd = self.cc.congestion_window();
+            let bif = self.cc.bytes_in_flight();
+            let mut al = app_limited;
+            if al == Some(true) && cwnd.saturating_sub(bif.saturating_add(bytes)) < self.mds as u32 {
+                al = Some(false);
+            }
+            let info = self.cc.on_packet_sent(self.now, bytes as usize, al, &self.rtt, p);
+            self.out.push(Pkt { seq: self.next_seq, bytes, time_sent: self.now, info, app_limited: al });
+            self.next_seq += 1;
+            self.packets_sent += 1;
+            self.check(step, "on_packet_sent", false)?;
+            if bytes > 0 {
+                // RFC 9002 §7.3.2: "a single packet can be sent prior to reduction"
+                ensure_that!(
+                    !self.cc.requires_fast_retransmission(),
+                    self.key("fast-retransmission-more-than-one-packet"),
+                    "step {step}: requires_fast_retransmission() still true after a congestion-controlled packet was sent"
+                );
+                // under-utilisation as documented in cubic.rs: flagged app-limited at send time
+                // (Initial/Handshake: unknown, treated as app-limited) AND more than 3 datagrams
+                // of window left AND (slow start only) less than half the window used. The
+                // model keeps only the case that is under-utilised under every reading.
+                let cwnd = self.cc.congestion_window();
+                let bif = self.cc.bytes_in_flight();
+                let avail = cwnd.saturating_sub(bif);
+                self.under_utilized = al != Some(false) && avail > 3 * self.mds as u32 && bif < cwnd / 2;
+            }
+        }
+        Ok(())
+    }
+
+    /// CUBIC rules for one loss / ECN signal
+    fn congestion_signal(&mut self, step: usize, call: &str, before: u32, persistent: bool, lost_seq: Option<u64>, obs: &mut Obs) -> CaseResult {
+        let after = self.cc.congestion_window();
+        self.congestion_events += 1;
+        if self.kind != Kind::Cubic {
+            return Ok(());
+        }
+        // exact integer comparison: multiplicative decrease is `max(cwnd * 0.7, minimum)` in
+        // f32; rounding of a product with 0.7 can never exceed the (larger) operand and the
+        // minimum is <= cwnd by the floor invariant, so no tolerance is needed
+        ensure_that!(
+            after <= before,
+            self.key("congestion-signal-increased-window"),
+            "step {step} {call}: window grew from {before} to {after} on a loss/ECN signal"
+        );
+        if persistent {
+            let min = 2 * self.mds as u32;
+            ensure_that!(
+                after == min,
+                self.key("persistent-congestion-window"),
+                "step {step} {call}: persistent congestion left the window at {after}, minimum window is {min}"
+            );
+            // RFC 9002 B.8: congestion_recovery_start_time = 0, slow start restarts
+            self.last_reduction_seq = None;
+            self.round_trip_elapsed = false;
+            obs.class("persistent-congestion");
+        } else if after < before {
+            if let Some(seq) = self.last_reduction_seq {
+                ensure_that!(
+                    self.round_trip_elapsed,
+                    self.key("second-reduction-within-round-trip"),
+                    "step {step} {call}: window reduced again ({before} -> {after}) although no packet sent after the previous reduction (packets #{seq}..) has been acknowledged"
+                );
+                obs.class("reduction-after-round-trip");
+                // RFC 9002 B.6 would ignore this loss (sent_time <= congestion_recovery_start_time);
+                // the property only demands one reduction per round trip, which holds: measured only
+                obs.class_if(lost_seq.is_some_and(|l| l < seq), "reduction-by-packet-sent-before-previous-reduction");
+            }
+            self.last_reduction_seq = Some(self.next_seq);
+            self.round_trip_elapsed = false;
+            self.reductions += 1;
+        }
+        Ok(())
+    }
+
+    fn lose(&mut self, step: usize, loss: &Loss, p: &mut P, obs: &mut Obs) -> CaseResult {
+        let Some(max_acked) = self.max_acked_seq else { return Ok(()) };
+        let eligible: Vec<usize> = (0..self.out.len()).filter(|i| self.out[*i].seq < max_acked).collect();
+        let idxs = self.resolve(&loss.runs, &eligible);
+        let lost = self.take(&idxs);
+        self.pending += lost.iter().map(|p| p.bytes).sum::<u32>();
+        let mut prev: Option<u64> = None;
+        for (i, pkt) in lost.iter().enumerate() {
+            let new_burst = prev.is_none_or(|s| s + 1 != pkt.seq) || (i < 16 && loss.burst_mask >> i & 1 == 1);
+            prev = Some(pkt.seq);
+            if pkt.bytes == 0 {
+                continue;
+            }
+            let before = self.cc.congestion_window();
+            self.cc.on_packet_lost(pkt.bytes, pkt.info, loss.persistent, new_burst, &mut self.rng, self.now, p);
+            self.pending -= pkt.bytes;
+            if loss.persistent {
+                self.rtt.on_persistent_congestion();
+            }
+            self.congestion_signal(step, "on_packet_lost", before, loss.persistent, Some(pkt.seq), obs)?;
+            self.check(step, "on_packet_lost", true)?;
+        }
+        Ok(())
+    }
+
+    fn ecn(&mut self, step: usize, ce: u8, p: &mut P, obs: &mut Obs) -> CaseResult {
+        let ce = (ce as u64).min(self.packets_sent - self.ce_total);
+        if ce == 0 {
+            return Ok(());
+        }
+        self.ce_total += ce;
+        let before = self.cc.congestion_window();
+        self.cc.on_explicit_congestion(ce, self.now, p);
+        obs.class("ecn-ce");
+        self.congestion_signal(step, "on_explicit_congestion", before, false, None, obs)?;
+        self.check(step, "on_explicit_congestion", true)
+    }
+
+    #[allow(clippy::too_many_arguments)]
+    fn ack(&mut self, step: usize, runs: &[Run], rtt: RttSrc, ack_delay_us: u32, confirmed: bool, loss: &Option<Loss>, ce: u8, p: &mut P, obs: &mut Obs) -> CaseResult {
+        let all: Vec<usize> = (0..self.out.len()).collect();
+        let idxs = self.resolve(runs, &all);
+        if idxs.is_empty() {
+            return Ok(());
+        }
+        let acked = self.take(&idxs);
+        let total: u32 = acked.iter().map(|p| p.bytes).sum();
+        let newest = acked.last().unwrap();
+        let (newest_seq, newest_sent, newest_info, newest_al) = (newest.seq, newest.time_sent, newest.info, newest.app_limited);
+        self.pending += total;
+        self.max_acked_seq = Some(self.max_acked_seq.map_or(newest_seq, |m| m.max(newest_seq)));
+        // RTT sample: only if an ack-eliciting packet is newly acknowledged
+        if total > 0 && rtt != RttSrc::NoSample {
+            let sample = match rtt {
+                RttSrc::Clock => self.now - newest_sent,
+                RttSrc::Us(us) => Duration::from_micros(us.max(1) as u64),
+                RttSrc::NoSample => unreachable!(),
+            };
+            let space = if confirmed { PacketNumberSpace::ApplicationData } else { PacketNumberSpace::Initial };
+            self.rtt.update_rtt(Duration::from_micros(ack_delay_us as u64), sample, self.now, confirmed, space);
+            self.cc.on_rtt_update(newest_sent, self.now, &self.rtt, p);
+            self.check(step, "on_rtt_update", false)?;
+        }
+        if let Some(loss) = loss {
+            self.lose(step, loss, p, obs)?;
+        }
+        if ce > 0 {
+            self.ecn(step, ce, p, obs)?;
+        }
+        if total > 0 {
+            let before = self.cc.congestion_window();
+            self.cc.on_ack(newest_sent, total as usize, newest_info, &self.rtt, &mut self.rng, self.now, p);
+            self.pending -= total;
+            let after = self.cc.congestion_window();
+            match self.kind {
+                Kind::Cubic => {
+                    if self.under_utilized {
+                        self.app_limited_acks += 1;
+                        // RFC 9002 §7.8 / RFC 8312 §5.8; integer results compared exactly:
+                        // the documented behaviour is an early return that leaves the f32
+                        // window untouched
+                        ensure_that!(
+                            after <= before,
+                            self.key("window-grew-while-app-limited"),
+                            "step {step} on_ack: window grew from {before} to {after} although the last packet was sent application-limited with the window under-utilised"
+                        );
+                    }
+                    if self.last_reduction_seq.is_some_and(|s| newest_seq >= s) {
+                        self.round_trip_elapsed = true;
+                    }
+                }
+                Kind::Bbr => {
+                    if newest_al != Some(false) {
+                        self.app_limited_acks += 1;
+                    }
+                }
+            }
+            if after > before && self.congestion_events > 0 {
+                self.grew_after_event = true;
+            }
+            self.check(step, "on_ack", false)?;
+        }
+        Ok(())
+    }
+
+    fn mtu(&mut self, step: usize, new: u16, p: &mut P, obs: &mut Obs) -> CaseResult {
+        let old = self.mds;
+        let before = self.cc.congestion_window();
+        self.cc.on_mtu_update(new, p);
+        self.mds = new;
+        obs.class_if(new > old, "mtu-increase");
+        obs.class_if(new < old, "mtu-decrease");
+        self.check(step, "on_mtu_update", false)?;
+        // RFC 8899 §3 (adapt the window to the packet size) + RFC 9002 §7.2 (recalculate the
+        // initial window): both controllers document `max(cwnd / old * new, initial_window)`.
+        // The code computes this in f32 (24-bit mantissa: one division, one multiplication and,
+        // for BBR, one u32->f32 conversion, each rounding by at most 2^-24 relative), from a
+        // window whose fractional part (< 1 byte, scaled by new/old <= 7.5) is not observable,
+        // and truncates: tolerance 10 bytes + 3e-7 relative.
+        let scaled = before as u64 * new as u64 / old as u64;
+        let want = scaled.max(self.kind.initial_window(new) as u64);
+        let after = self.cc.congestion_window() as u64;
+        let tol = 10 + want * 3 / 10_000_000;
+        ensure_that!(
+            after.abs_diff(want) <= tol,
+            self.key("mtu-rescale"),
+            "step {step} on_mtu_update {old} -> {new}: window {before} became {after}, expected max({scaled}, initial window {}) (tolerance {tol})",
+            self.kind.initial_window(new)
+        );
+        Ok(())
+    }
+
+    fn discard(&mut self, step: usize, runs: &[Run], p: &mut P, obs: &mut Obs) -> CaseResult {
+        let all: Vec<usize> = (0..self.out.len()).collect();
+        let idxs = self.resolve(runs, &all);
+        let gone = self.take(&idxs);
+        let total: u32 = gone.iter().map(|p| p.bytes).sum();
+        self.cc.on_packet_discarded(total as usize, p);
+        obs.class_if(total > 0, "discard");
+        self.check(step, "on_packet_discarded", false)
+    }
+}
+
+fn run<CC: CongestionController>(kind: Kind, cc: CC, case: &Case, obs: &mut Obs) -> CaseResult {
+    let mut events = event::testing::Publisher::no_snapshot();
+    let mut publisher = PathPublisher::new(&mut events, path::Id::test_id());
+    let p = &mut publisher;
+    let mut sim = Sim {
+        kind,
+        cc,
+        mds: case.mds,
+        now: NoopClock.get_time(),
+        rtt: RttEstimator::default(),
+        rng: random::testing::Generator(case.seed),
+        out: Vec::new(),
+        next_seq: 0,
+        max_acked_seq: None,
+        pending: 0,
+        packets_sent: 0,
+        ce_total: 0,
+        prev_fast_retx: false,
+        under_utilized: false,
+        last_reduction_seq: None,
+        round_trip_elapsed: false,
+        reductions: 0,
+        congestion_events: 0,
+        grew_after_event: false,
+        app_limited_acks: 0,
+        units: 0,
+    };
+    sim.check(0, "new", false)?;
+    for (step, op) in case.ops.iter().enumerate() {
+        match op {
+            Op::Advance { us } => sim.now += Duration::from_micros(*us as u64),
+            Op::Send { count, size, app_limited, pto_probe } => sim.send(step, *count, *size, *app_limited, *pto_probe, p, obs)?,
+            Op::Ack { runs, rtt, ack_delay_us, handshake_confirmed, loss, ce } => {
+                sim.ack(step, runs, *rtt, *ack_delay_us, *handshake_confirmed, loss, *ce, p, obs)?
+            }
+            Op::Lose(loss) => sim.lose(step, loss, p, obs)?,
+            Op::Ecn { ce } => sim.ecn(step, *ce, p, obs)?,
+            Op::Mtu { mds } => sim.mtu(step, *mds, p, obs)?,
+            Op::Discard { runs } => sim.discard(step, runs, p, obs)?,
+        }
+        obs.class_if(sim.cc.congestion_window() == kind.min_packets() * sim.mds as u32, "window-at-minimum");
+    }
+    obs.units = sim.units;
+    let events_seen = match kind {
+        Kind::Cubic => sim.reductions > 0,
+        Kind::Bbr => sim.congestion_events > 0,
+    };
+    obs.class_if(events_seen, "congestion-event");
+    obs.class_if(events_seen && sim.grew_after_event, "growth-after-congestion-event");
+    obs.class_if(sim.app_limited_acks > 0, "app-limited-ack");
+    obs.class_if(sim.reductions >= 2, "two-reductions");
+    obs.nontrivial(events_seen && sim.grew_after_event && sim.app_limited_acks > 0);
+    obs.sample = Some(serde_json::json!({
+        "mds": case.mds, "ops": case.ops.len(), "trait_calls": sim.units,
+        "congestion_events": sim.congestion_events, "window_reductions": sim.reductions,
+        "app_limited_acks": sim.app_limited_acks, "final_window": sim.cc.congestion_window(),
+        "first_ops": case.ops.iter().take(12).collect::<Vec<_>>(),
+    }));
+    Ok(())
+}
+
+fn cubic_oracle(case: &Case, obs: &mut Obs) -> CaseResult {
+    if !(1200..=9000).contains(&case.mds) {
+        return Err(Fail::new("harness:bad-case", "max_datagram_size outside 1200..=9000"));
+    }
+    run(Kind::Cubic, CubicCongestionController::new(case.mds, Default::default()), case, obs)
+}
+
+fn bbr_oracle(case: &Case, obs: &mut Obs) -> CaseResult {
+    if !(1200..=9000).contains(&case.mds) {
+        return Err(Fail::new("harness:bad-case", "max_datagram_size outside 1200..=9000"));
+    }
+    run(Kind::Bbr, BbrCongestionController::new(case.mds, Default::default()), case, obs)
+}
+
+// ---------------------------------------------------------------------------------------
+// generators
+
+fn mds_strategy() -> impl Strategy<Value = u16> {
+    prop_oneof![
+        3 => Just(1200u16),
+        2 => Just(1500u16),
+        2 => Just(9000u16),
+        1 => prop_oneof![Just(1201u16), Just(1499), Just(1501), Just(8999), Just(1280), Just(1472)],
+        3 => 1200u16..=9000,
+    ]
+}
+
+fn size_strategy() -> impl Strategy<Value = Size> {
+    prop_oneof![
+        10 => Just(Size::Full),
+        3 => (0u16..=120).prop_map(Size::Minus),
+        3 => (1u16..=9000).prop_map(Size::Abs),
+        2 => (1u16..=80).prop_map(Size::Abs),
+        2 => Just(Size::Zero),
+        1 => (1201u16..=9000).prop_map(Size::MtuProbe),
+    ]
+}
+
+fn run_strategy() -> impl Strategy<Value = Run> {
+    (
+        prop_oneof![4 => Just(0u16), 1 => Just(u16::MAX), 4 => any::<u16>()],
+        prop_oneof![3 => 1u8..=3, 4 => 1u8..=60, 1 => Just(255u8)],
+    )
+        .prop_map(|(at, len)| Run { at, len })
+}
+
+fn runs_strategy() -> impl Strategy<Value = Vec<Run>> {
+    prop::collection::vec(run_strategy(), 1..=3)
+}
+
+fn loss_strategy() -> impl Strategy<Value = Loss> {
+    (runs_strategy(), prop::bool::weighted(0.2), prop_oneof![2 => Just(0u16), 1 => any::<u16>()])
+        .prop_map(|(runs, persistent, burst_mask)| Loss { runs, persistent, burst_mask })
+}
+
+fn app_limited_strategy() -> impl Strategy<Value = Option<bool>> {
+    prop_oneof![2 => Just(None), 3 => Just(Some(true)), 4 => Just(Some(false))]
+}
+
+fn op_strategy(probes: bool) -> impl Strategy<Value = Op> {
+    let advance = prop_oneof![
+        1 => prop_oneof![Just(0u32), Just(1), Just(999), Just(1000), Just(1001)],
+        3 => 1u32..=3000,
+        4 => 1000u32..=300_000,
+        1 => 0u32..=5_000_000,
+    ]
+    .prop_map(|us| Op::Advance { us });
+    let send = (
+        prop_oneof![2 => 1u8..=3, 3 => 1u8..=50, 1 => Just(50u8)],
+        size_strategy(),
+        app_limited_strategy(),
+        prop::bool::weighted(if probes { 0.25 } else { 0.0 }),
+    )
+        .prop_map(|(count, size, app_limited, pto_probe)| Op::Send { count, size, app_limited, pto_probe });
+    let rtt = prop_oneof![
+        5 => Just(RttSrc::Clock),
+        2 => (1u32..=400_000).prop_map(RttSrc::Us),
+        1 => prop_oneof![Just(1u32), Just(2), Just(1999), Just(2000), Just(2001), Just(10_000_000), 1u32..=10_000_000].prop_map(RttSrc::Us),
+        1 => Just(RttSrc::NoSample),
+    ];
+    let ack = (
+        runs_strategy(),
+        rtt,
+        prop_oneof![3 => Just(0u32), 3 => 0u32..=25_000, 1 => 0u32..=20_000_000],
+        prop::bool::weighted(0.8),
+        prop::option::weighted(0.15, loss_strategy()),
+        prop_oneof![12 => Just(0u8), 1 => 1u8..=255],
+    )
+        .prop_map(|(runs, rtt, ack_delay_us, handshake_confirmed, loss, ce)| Op::Ack { runs, rtt, ack_delay_us, handshake_confirmed, loss, ce });
+    prop_oneof![
+        6 => advance,
+        7 => send,
+        8 => ack,
+        2 => loss_strategy().prop_map(Op::Lose),
+        1 => (1u8..=255).prop_map(|ce| Op::Ecn { ce }),
+        1 => prop_oneof![3 => mds_strategy(), 1 => 1200u16..=9000].prop_map(|mds| Op::Mtu { mds }),
+        1 => runs_strategy().prop_map(|runs| Op::Discard { runs }),
+    ]
+}
+
+fn case_strategy(probes: bool) -> impl Strategy<Value = Case> {
+    (mds_strategy(), any::<u8>(), prop::collection::vec(op_strategy(probes), 1..=400)).prop_map(|(mds, seed, ops)| Case { mds, seed, ops })
+}
+
+fn plain_family(_t: Tier) -> BoxedStrategy<Case> {
+    case_strategy(false).boxed()
+}
+
+fn probe_family(_t: Tier) -> BoxedStrategy<Case> {
+    case_strategy(true).boxed()
+}
 
 pub fn subs() -> Vec<Box<dyn SubCheck>> {
-    vec![]
+    vec![
+        Box::new(PropCheck::<Case, _> {
+            name: "cubic_ops",
+            cases: |t| t.pick(60_000, 3_000_000),
+            strategy: plain_family,
+            oracle: cubic_oracle,
+            max_shrink_iters: 30_000,
+        }),
+        Box::new(PropCheck::<Case, _> {
+            name: "bbr_ops",
+            cases: |t| t.pick(60_000, 3_000_000),
+            strategy: plain_family,
+            oracle: bbr_oracle,
+            max_shrink_iters: 30_000,
+        }),
+        Box::new(PropCheck::<Case, _> {
+            name: "cubic_probe_family",
+            cases: |t| t.pick(20_000, 800_000),
+            strategy: probe_family,
+            oracle: cubic_oracle,
+            max_shrink_iters: 30_000,
+        }),
+        Box::new(PropCheck::<Case, _> {
+            name: "bbr_probe_family",
+            cases: |t| t.pick(20_000, 800_000),
+            strategy: probe_family,
+            oracle: bbr_oracle,
+            max_shrink_iters: 30_000,
+        }),
+    ]
 }
 
 pub fn property() -> Property {
     Property {
         id: "C10",
-        rule: "",
-        assumptions: &[],
+        rule: "component: op sequences (1..=400 ops) over {advance time 0-5 s; send 1-50 packets of 0..=max_datagram_size bytes \
+               (or one PMTU probe) with app_limited in {None, Some(true), Some(false)}; ACK frame = generated runs of outstanding \
+               packets with RTT sample (clock-derived, generated 1 us-10 s, or none), optional embedded loss detection and ECN-CE \
+               count, one aggregated on_ack; loss-timer losses (persistent or not, burst pattern); ECN-CE; MTU update 1200..=9000; \
+               discard} for CUBIC and BBRv2, max_datagram_size 1200..=9000 biased to 1200/1500/9000, following the calling \
+               discipline of recovery::Manager / Path (pacing, congestion-limited gate, fast-retransmission allowance; the \
+               *_probe_family sub-checks add PTO probes sent while limited). Oracle after every trait call: window floor \
+               (2 / 4 datagrams), no saturation, no panic (debug assertions + checked counters armed), bytes_in_flight == ledger \
+               of outstanding packets, is_congestion_limited matches its definition, fast-retransmission allowance is one packet \
+               and only raised by a congestion signal, MTU update rescales within f32 tolerance and never below the initial \
+               window; CUBIC: loss/ECN never increases the window, a second reduction needs an ack of a packet sent after the \
+               previous one (persistent congestion restarts the epoch), persistent congestion leaves exactly 2 datagrams, no \
+               growth across an on_ack while application-limited with the window under-utilised. Non-trivial: the sequence \
+               contains a congestion event (CUBIC: a visible window reduction) followed by window growth on a later ack, and an \
+               application-limited ack. Distinct = distinct (max_datagram_size, seed, op sequence).",
+        assumptions: &[
+            "the ledger of outstanding packets kept by the harness and the RFC 9002 / RFC 8312 rules transcribed in c10_cc.rs are the trusted base",
+            "callers of the CongestionController trait behave like s2n-quic-transport (preconditions listed at the top of c10_cc.rs); inputs outside that discipline are not generated",
+            "BBRv2 is checked only against the bounds the property states (floor, overflow, ledger, limited-definition), not against the BBR draft",
+            "application-limited is judged by the sufficient condition 'flagged (or unknown) at send time, more than 3 datagrams of window left and less than half the window in flight'; borderline utilisation is not judged",
+            "environment variable S2N_UNSTABLE_USE_HYSTART_PP is unset (it switches the slow start algorithm)",
+        ],
         subs: subs(),
         shards: 0,
     }
